@@ -176,10 +176,10 @@ carries every old word.  At every `FnCall` node that is not copied whole: `level
 (non-empty diff) to some new child or has no words, and every similar child pair is again in the class. -/
 def addOnly : Sk → Sk → Bool
   | .fn ocs, n =>
-    (Sk.fn ocs).matches n || (match n with
+    (Sk.fn ocs).matches n || sizeL ocs == 0 || (match n with
       | .fn ncs => addOnlyRows ocs ncs && levelAddB ocs ncs
       | _ => false)
-  | o, n => o.matches n
+  | o, n => o.matches n || o.size == 0
 def addOnlyRows : List Sk → List Sk → Bool
   | [], _ => true
   | o :: os, ns =>
@@ -197,10 +197,10 @@ mutual
 fills every new word. -/
 def removeOnly : Sk → Sk → Bool
   | .fn ocs, n =>
-    (Sk.fn ocs).matches n || (match n with
+    (Sk.fn ocs).matches n || n.size == 0 || (match n with
       | .fn ncs => removeOnlyRows ocs ncs && removeOnlyCols ocs ncs && levelRemB ocs ncs
       | _ => false)
-  | o, n => o.matches n
+  | o, n => o.matches n || n.size == 0
 def removeOnlyRows : List Sk → List Sk → Bool
   | [], _ => true
   | o :: os, ns => ns.all (fun n => (diff o n).isEmpty || removeOnly o n) && removeOnlyRows os ns
@@ -290,17 +290,30 @@ mutual
 /-- **only additions, any depth**: on the class `addOnly` every word of the old layout is carried -/
 theorem addOnly_carried : ∀ (o n : Sk), addOnly o n = true → carried (diff o n) = o.size
   | .delay a, n, h => by
-    simp only [addOnly] at h; rw [diff_of_matches _ _ h]; simp
+    simp only [addOnly, Bool.or_eq_true, beq_iff_eq] at h
+    rcases h with h | h
+    · rw [diff_of_matches _ _ h]; simp
+    · have := carried_le_old (.delay a) n; omega
   | .mem a, n, h => by
-    simp only [addOnly] at h; rw [diff_of_matches _ _ h]; simp
+    simp only [addOnly, Bool.or_eq_true, beq_iff_eq] at h
+    rcases h with h | h
+    · rw [diff_of_matches _ _ h]; simp
+    · have := carried_le_old (.mem a) n; omega
   | .feed a, n, h => by
-    simp only [addOnly] at h; rw [diff_of_matches _ _ h]; simp
+    simp only [addOnly, Bool.or_eq_true, beq_iff_eq] at h
+    rcases h with h | h
+    · rw [diff_of_matches _ _ h]; simp
+    · have := carried_le_old (.feed a) n; omega
   | .fn ocs, n, h => by
     by_cases hm : (Sk.fn ocs).matches n = true
     · rw [diff_of_matches _ _ hm]; simp
-    · cases n with
+    · by_cases hz : sizeL ocs = 0
+      · have := carried_le_old (.fn ocs) n
+        simp only [size_fn] at this ⊢; omega
+      cases n with
       | fn ncs =>
-        simp only [addOnly, hm, Bool.false_or, Bool.and_eq_true] at h
+        simp only [addOnly, hm, Bool.false_or, Bool.and_eq_true, Bool.or_eq_true, beq_iff_eq, hz,
+          false_or] at h
         obtain ⟨hrows, hlev⟩ := h
         obtain ⟨hc, hfull⟩ := levelAddB_spec ocs ncs hlev
         have hall := addOnlyL_carried ocs
@@ -319,9 +332,9 @@ theorem addOnly_carried : ∀ (o n : Sk), addOnly o n = true → carried (diff o
             have : (diff ocs[i] ncs[j]).length = 0 := by omega
             exact hne (List.length_eq_zero_iff.1 this)
           · exact h0
-      | delay _ => simp [addOnly, hm] at h
-      | mem _ => simp [addOnly, hm] at h
-      | feed _ => simp [addOnly, hm] at h
+      | delay _ => simp [addOnly, hm, hz] at h
+      | mem _ => simp [addOnly, hm, hz] at h
+      | feed _ => simp [addOnly, hm, hz] at h
 theorem addOnlyL_carried : ∀ (ocs : List Sk) (i : Nat) (hi : i < ocs.length) (n : Sk),
     addOnly ocs[i] n = true → carried (diff ocs[i] n) = ocs[i].size
   | [], i, hi, _ => by simp at hi
@@ -333,17 +346,29 @@ mutual
 /-- **only removals, any depth**: on the class `removeOnly` every word of the new layout is filled -/
 theorem removeOnly_carried : ∀ (o n : Sk), removeOnly o n = true → carried (diff o n) = n.size
   | .delay a, n, h => by
-    simp only [removeOnly] at h; rw [diff_of_matches _ _ h]; simpa using matches_size _ _ h
+    simp only [removeOnly, Bool.or_eq_true, beq_iff_eq] at h
+    rcases h with h | h
+    · rw [diff_of_matches _ _ h]; simpa using matches_size _ _ h
+    · have := carried_le_new (.delay a) n; omega
   | .mem a, n, h => by
-    simp only [removeOnly] at h; rw [diff_of_matches _ _ h]; simpa using matches_size _ _ h
+    simp only [removeOnly, Bool.or_eq_true, beq_iff_eq] at h
+    rcases h with h | h
+    · rw [diff_of_matches _ _ h]; simpa using matches_size _ _ h
+    · have := carried_le_new (.mem a) n; omega
   | .feed a, n, h => by
-    simp only [removeOnly] at h; rw [diff_of_matches _ _ h]; simpa using matches_size _ _ h
+    simp only [removeOnly, Bool.or_eq_true, beq_iff_eq] at h
+    rcases h with h | h
+    · rw [diff_of_matches _ _ h]; simpa using matches_size _ _ h
+    · have := carried_le_new (.feed a) n; omega
   | .fn ocs, n, h => by
     by_cases hm : (Sk.fn ocs).matches n = true
     · rw [diff_of_matches _ _ hm]; simpa using matches_size _ _ hm
-    · cases n with
+    · by_cases hz : n.size = 0
+      · have := carried_le_new (.fn ocs) n; omega
+      cases n with
       | fn ncs =>
-        simp only [removeOnly, hm, Bool.false_or, Bool.and_eq_true] at h
+        simp only [removeOnly, hm, Bool.false_or, Bool.and_eq_true, Bool.or_eq_true, beq_iff_eq, hz,
+          false_or] at h
         obtain ⟨⟨hrows, hcols⟩, hlev⟩ := h
         obtain ⟨hd, hfull⟩ := levelRemB_spec ocs ncs hlev
         have hall := removeOnlyL_carried ocs
@@ -363,9 +388,9 @@ theorem removeOnly_carried : ∀ (o n : Sk), removeOnly o n = true → carried (
             have : (diff ocs[i] ncs[j]).length = 0 := by omega
             exact hne (List.length_eq_zero_iff.1 this)
           · exact h0
-      | delay _ => simp [removeOnly, hm] at h
-      | mem _ => simp [removeOnly, hm] at h
-      | feed _ => simp [removeOnly, hm] at h
+      | delay _ => simp [removeOnly, hm, hz] at h
+      | mem _ => simp [removeOnly, hm, hz] at h
+      | feed _ => simp [removeOnly, hm, hz] at h
 theorem removeOnlyL_carried : ∀ (ocs : List Sk) (i : Nat) (hi : i < ocs.length) (n : Sk),
     removeOnly ocs[i] n = true → carried (diff ocs[i] n) = n.size
   | [], i, hi, _ => by simp at hi
